@@ -25,12 +25,14 @@ import (
 var checks = map[string]func(*Run) error{
 	"C13": checkC13,
 	"C14": checkC14,
+	"C17": checkC17,
 	"C19": checkC19,
 }
 
 var replays = map[string]func(*Run, *Violation) (bool, string, error){
 	"C13": replayC13,
 	"C14": replayC14,
+	"C17": replayC17,
 	"C19": replayC19,
 }
 
